@@ -26,6 +26,7 @@ ASSUMPTIONS = ["refproto command reader transcribed from the vendor PDFs ('other
                "matching control type"]
 REQUIRED_OBS = ["frames_judged", "ac_numbers_seen", "zone_numbers_seen", "setpoints_on_grid",
                 "timer_calls", "enum_arguments"]
+SOAK = True   # also judged by the whole-run monitors of the soak sessions (vf/soak.py)
 BUDGET = {"quick": 100, "thorough": 1500}
 
 
